@@ -1,9 +1,12 @@
 (* Model of the master's vacuum orchestration (C14):
-     weed/topology/topology_vacuum.go   vacuumOneVolumeLayout, batchVacuumVolumeCheck /
-                                        Compact / Commit / Cleanup
+     weed/topology/topology_vacuum.go   Topology.Vacuum, vacuumOneVolumeLayout,
+                                        batchVacuumVolumeCheck / Compact / Commit / Cleanup
      weed/topology/volume_layout.go     removeFromWritable, SetVolumeAvailable (model/TopoLayout.v)
-   One round per volume id of a layout.  The volume servers are scripted: for each
-   (vid, replica) what its VacuumVolumeCheck / Compact / Commit RPC does.
+   One round per volume id of a layout, one pass per call of Topology.Vacuum.  The
+   volume servers are scripted: for each (vid, replica) what its VacuumVolumeCheck /
+   Compact / Commit RPC does.  The master holds no lock between the phases of a
+   round: [mid] events (heartbeats, collector sweeps, disconnects) are processed
+   while the replicas compact, i.e. after removeFromWritable and before the commit.
    Executable definitions only; proofs are in proof/VacuumProofs.v. *)
 From Coq Require Import List NArith Bool.
 From SW Require Export model.TopoLayout.
@@ -15,14 +18,14 @@ Inductive ck :=
 | CkOver      (* answers, garbage ratio >= threshold *)
 | CkUnder     (* answers, garbage ratio < threshold *)
 | CkErr       (* answers with an error *)
-| CkTimeout.  (* no answer before the master's timer fires *)
+| CkTimeout   (* no answer before the master's timer fires *)
+| CkDial.     (* nobody listens on the replica's address: the call fails, no RPC is received *)
 Inductive cp := CpOk | CpErr | CpTimeout.
-(* the commit RPC has no timer on the master (context.Background()); a replica
-   that never answers blocks the round for ever and is not modelled *)
 Inductive cm :=
 | CmOk        (* success, IsReadOnly = false *)
 | CmOkRO      (* success, IsReadOnly = true *)
-| CmErr.
+| CmErr
+| CmHang.     (* never answers: the commit RPC has no timer on the master (context.Background()) *)
 Record script := { sc_ck : ck; sc_cp : cp; sc_cm : cm }.
 Definition default_script : script := {| sc_ck := CkOver; sc_cp := CpOk; sc_cm := CmOk |}.
 
@@ -40,11 +43,13 @@ Record entry := { e_vid : N; e_node : N; e_rpc : rpc }.
 Definition mk (v : N) (r : rpc) (n : N) : entry := {| e_vid := v; e_node := n; e_rpc := r |}.
 
 Definition is_over (s : script) : bool := match sc_ck s with CkOver => true | _ => false end.
-Definition is_ck_err (s : script) : bool := match sc_ck s with CkErr => true | _ => false end.
+Definition is_ck_err (s : script) : bool := match sc_ck s with CkErr | CkDial => true | _ => false end.
+Definition is_ck_dial (s : script) : bool := match sc_ck s with CkDial => true | _ => false end.
 Definition is_ck_timeout (s : script) : bool := match sc_ck s with CkTimeout => true | _ => false end.
 Definition is_cp_ok (s : script) : bool := match sc_cp s with CpOk => true | _ => false end.
-Definition is_cm_ok (s : script) : bool := match sc_cm s with CmErr => false | _ => true end.
+Definition is_cm_ok (s : script) : bool := match sc_cm s with CmOk | CmOkRO => true | _ => false end.
 Definition is_cm_ro (s : script) : bool := match sc_cm s with CmOkRO => true | _ => false end.
+Definition is_cm_hang (s : script) : bool := match sc_cm s with CmHang => true | _ => false end.
 
 (* batchVacuumVolumeCheck: every replica is asked; the result is "go on" only if
    nobody timed out, nobody answered with an error and somebody is over the
@@ -54,46 +59,161 @@ Definition check_phase (scs : scripts) (v : N) (locs : list N) : list N * bool :
   let timed_out := existsb (fun n => is_ck_timeout (sget scs v n)) locs in
   let errs := existsb (fun n => is_ck_err (sget scs v n)) locs in
   (vac, negb timed_out && negb errs && match vac with [] => false | _ => true end).
+(* the replicas that receive the check RPC *)
+Definition check_log (scs : scripts) (v : N) (locs : list N) : list entry :=
+  map (mk v RCheck) (filter (fun n => negb (is_ck_dial (sget scs v n))) locs).
 
 (* batchVacuumVolumeCompact's verdict: every replica of the list answered ok
    before the timer *)
 Definition compact_ok (scs : scripts) (v : N) (vac : list N) : bool :=
   forallb (fun n => is_cp_ok (sget scs v n)) vac.
-(* batchVacuumVolumeCommit *)
+(* batchVacuumVolumeCommit: sequential, every replica of the list is called even
+   after a failure; a replica that never answers blocks the loop.  Result: the
+   replicas that received the commit RPC, and whether the loop hangs *)
+Fixpoint commit_calls (scs : scripts) (v : N) (vac : list N) : list N * bool :=
+  match vac with
+  | [] => ([], false)
+  | n :: rest =>
+      if is_cm_hang (sget scs v n) then ([n], true)
+      else let '(cs, h) := commit_calls scs v rest in (n :: cs, h)
+  end.
 Definition commit_ok (scs : scripts) (v : N) (vac : list N) : bool :=
   forallb (fun n => is_cm_ok (sget scs v n)) vac.
 Definition commit_ro (scs : scripts) (v : N) (vac : list N) : bool :=
   existsb (fun n => is_cm_ok (sget scs v n) && is_cm_ro (sget scs v n)) vac.
 
-Record round := { r_lay : layout; r_log : list entry }.
+Definition with_lay (l : layout) (s : state) : state := {| s_nodes := s_nodes s; s_lay := l |}.
+
+(* ---------- what the round still holds after master-side events ---------- *)
+(* The round works on copies of the location lists, i.e. on the *DataNode objects
+   that were registered when the pass started.  UnRegisterDataNode unlinks the
+   object but leaves its volume map intact; the node's next heartbeat gets a fresh
+   object.  [dead_of]: the nodes whose stream ended during the events, each with the
+   volume map its unlinked object keeps (first disconnect only). *)
+Fixpoint dead_of (c : cfg) (s : state) (es : list event) (acc : list (N * vols)) : list (N * vols) :=
+  match es with
+  | [] => acc
+  | e :: es' =>
+      let acc' := match e with
+                  | EDisconnect n =>
+                      match aget n acc, aget n (s_nodes s) with
+                      | None, Some vs => acc ++ [(n, vs)]
+                      | _, _ => acc
+                      end
+                  | _ => acc
+                  end in
+      dead_of c (step c s e) es' acc'
+  end.
+(* dn.GetVolumesById on the objects the round holds *)
+Definition held_nodes (c : cfg) (s : state) (es : list event) : nodes :=
+  fold_left (fun ns p => aset (fst p) (snd p) ns) (dead_of c s es []) (s_nodes (run c s es)).
+(* UnRegisterVolumeLayout deletes the VolumeLayout object from its collection once
+   vid2location is empty; the pass keeps working on the deleted object, which has
+   no entry for any vid any more *)
+Definition detached (c : cfg) (s : state) (es : list event) : bool :=
+  existsb (fun st => match l_loc (s_lay st) with [] => true | _ => false end) (trace c s es).
+
+(* SetVolumeAvailable(dn, vid, isReadOnly) as called by the commit; the flag is
+   "the master panicked": vl.vid2location[vid] is dereferenced without a nil check *)
+Definition set_av (c : cfg) (held : nodes) (v : N) (ro : bool) (lp : layout * bool) (n : N) : layout * bool :=
+  if snd lp then lp
+  else match ginfo held n v with
+       | None => lp
+       | Some _ =>
+           match aget v (l_loc (fst lp)) with
+           | None => (fst lp, true)
+           | Some _ => (set_available c held n v ro (fst lp), false)
+           end
+       end.
+
+Record round := {
+  r_st : state;           (* the master's state after the round *)
+  r_log : list entry;
+  r_hung : bool;          (* the round never returns *)
+  r_panic : bool;         (* the master process panicked *)
+  r_evs : list event      (* the master-side events processed during the round *)
+}.
+Definition r_lay (r : round) : layout := s_lay (r_st r).
+Definition quiet (s : state) (log : list entry) (evs : list event) : round :=
+  {| r_st := s; r_log := log; r_hung := false; r_panic := false; r_evs := evs |}.
 
 (* the body of the loop of vacuumOneVolumeLayout for one vid; [locs] is the copy
-   of the location list taken before the loop *)
-Definition vacuum_round (c : cfg) (ns : nodes) (scs : scripts) (v : N) (locs : list N) (l : layout) : round :=
-  if bs_true v (l_ro l) then {| r_lay := l; r_log := [] |}
+   of the location list taken before the loop; [mid] are the events the master
+   processes while the replicas compact *)
+Definition vacuum_round (c : cfg) (s : state) (scs : scripts) (mid : list event) (v : N) (locs : list N) : round :=
+  let l := s_lay s in
+  if bs_true v (l_ro l) then quiet s [] []
   else
-    let log1 := map (mk v RCheck) locs in
+    let log1 := check_log scs v locs in
     let '(vac, need) := check_phase scs v locs in
     if need then
       (* batchVacuumVolumeCompact removes the vid from writables first *)
-      let l1 := remove_writable v l in
+      let s1 := with_lay (remove_writable v l) s in
       let log2 := map (mk v RCompact) vac in
+      let s2 := run c s1 mid in
       if compact_ok scs v vac then
-        (* commit: sequential, every replica of the list is called even after a failure *)
-        let log3 := map (mk v RCommit) vac in
-        if commit_ok scs v vac then
-          {| r_lay := fold_left (fun l' n => set_available c ns n v (commit_ro scs v vac) l') vac l1;
-             r_log := log1 ++ log2 ++ log3 |}
-        else {| r_lay := l1; r_log := log1 ++ log2 ++ log3 |}
-      else {| r_lay := l1; r_log := log1 ++ log2 ++ map (mk v RCleanup) vac |}
-    else {| r_lay := l; r_log := log1 |}.
+        let '(called, hung) := commit_calls scs v vac in
+        let log3 := map (mk v RCommit) called in
+        if hung then {| r_st := s2; r_log := log1 ++ log2 ++ log3; r_hung := true; r_panic := false; r_evs := mid |}
+        else if commit_ok scs v vac then
+          let held := held_nodes c s1 mid in
+          let ro := commit_ro scs v vac in
+          if detached c s1 mid then
+            (* SetVolumeAvailable runs on the deleted layout object *)
+            {| r_st := s2; r_log := log1 ++ log2 ++ log3; r_hung := false;
+               r_panic := existsb (fun n => match ginfo held n v with Some _ => true | None => false end) vac;
+               r_evs := mid |}
+          else
+            let lp := fold_left (set_av c held v ro) vac (s_lay s2, false) in
+            {| r_st := with_lay (fst lp) s2; r_log := log1 ++ log2 ++ log3; r_hung := false; r_panic := snd lp; r_evs := mid |}
+        else quiet s2 (log1 ++ log2 ++ log3) mid
+      else quiet s2 (log1 ++ log2 ++ map (mk v RCleanup) vac) mid
+    else quiet s log1 [].
 
-(* vacuumOneVolumeLayout: all location lists are copied first, then one round per vid *)
-Definition vacuum_layout (c : cfg) (ns : nodes) (scs : scripts) (l : layout) : round :=
-  fold_left (fun r p =>
-               let r' := vacuum_round c ns scs (fst p) (snd p) (r_lay r) in
-               {| r_lay := r_lay r'; r_log := r_log r ++ r_log r' |})
-            (l_loc l) {| r_lay := l; r_log := [] |}.
+(* one call of Topology.Vacuum *)
+Record pass := {
+  p_pre : list event;               (* events processed before the pass (also by a master that never vacuums) *)
+  p_scs : scripts;
+  p_mid : list (N * list event)     (* vid -> events processed while that vid's replicas compact *)
+}.
+Definition mid_of (p : pass) (v : N) : list event :=
+  match aget v (p_mid p) with Some es => es | None => [] end.
+
+(* q_evs: the events the master processed during the pass, in order *)
+Record pstate := { q_st : state; q_log : list entry; q_hung : bool; q_panic : bool; q_evs : list event }.
+Definition pstart (s : state) : pstate := {| q_st := s; q_log := []; q_hung := false; q_panic := false; q_evs := [] |}.
+
+(* vacuumOneVolumeLayout: all location lists are copied first, then one round per
+   vid; a round that hangs or panics ends the pass *)
+Definition round_step (c : cfg) (scs : scripts) (mids : N -> list event) (q : pstate) (p : N * list N) : pstate :=
+  if q_hung q || q_panic q then q
+  else let r := vacuum_round c (q_st q) scs (mids (fst p)) (fst p) (snd p) in
+       {| q_st := r_st r; q_log := q_log q ++ r_log r; q_hung := r_hung r; q_panic := r_panic r;
+          q_evs := q_evs q ++ r_evs r |}.
+Definition vacuum_layout (c : cfg) (scs : scripts) (mids : N -> list event) (s : state) : pstate :=
+  fold_left (round_step c scs mids) (l_loc (s_lay s)) (pstart s).
+
+(* Topology.Vacuum: returns at once while an earlier call has not returned
+   (vacuumLockCounter); after a panic there is no master any more *)
+Definition pass_step (c : cfg) (q : pstate) (p : pass) : pstate :=
+  if q_panic q then {| q_st := q_st q; q_log := []; q_hung := q_hung q; q_panic := true; q_evs := [] |}
+  else
+    let s := run c (q_st q) (p_pre p) in
+    if q_hung q then {| q_st := s; q_log := []; q_hung := true; q_panic := false; q_evs := p_pre p |}
+    else let q' := vacuum_layout c (p_scs p) (mid_of p) s in
+         {| q_st := q_st q'; q_log := q_log q'; q_hung := q_hung q'; q_panic := q_panic q'; q_evs := p_pre p ++ q_evs q' |}.
+(* the states after every pass (each with the log of that pass only) *)
+Fixpoint passes (c : cfg) (q : pstate) (ps : list pass) : list pstate :=
+  match ps with
+  | [] => []
+  | p :: ps' => let q' := pass_step c q p in q' :: passes c q' ps'
+  end.
+(* the master that never vacuums: the same events at the same times, no rounds *)
+Fixpoint unvacuumed (c : cfg) (s : state) (qs : list pstate) : list state :=
+  match qs with
+  | [] => []
+  | q :: qs' => let s' := run c s (q_evs q) in s' :: unvacuumed c s' qs'
+  end.
 
 Definition rpc_eqb (a b : rpc) : bool :=
   match a, b with
@@ -112,15 +232,26 @@ Definition got (log : list entry) (v n : N) (r : rpc) : bool :=
 Definition crit_loc (c : cfg) (ns : nodes) (l : layout) (v : N) : bool :=
   enough c (nlen (loc l v)) && forallb (replica_ok c ns v) (loc l v).
 
-(* ---------- triggers of the known findings of C14 ---------- *)
+(* ---------- triggers of the known findings of C14 (rounds without master-side events) ---------- *)
+Definition vac_of (scs : scripts) (l : layout) (v : N) : list N := fst (check_phase scs v (loc l v)).
 Definition reaches_compact (scs : scripts) (l : layout) (v : N) : bool :=
   negb (bs_true v (l_ro l)) && snd (check_phase scs v (loc l v)).
+(* 2: the round reaches the commit of a replica that never answers *)
+Definition trigger_hang (scs : scripts) (l : layout) (v : N) : bool :=
+  let vac := vac_of scs l v in
+  reaches_compact scs l v && compact_ok scs v vac && snd (commit_calls scs v vac).
 Definition full_success (scs : scripts) (l : layout) (v : N) : bool :=
-  let vac := fst (check_phase scs v (loc l v)) in
-  reaches_compact scs l v && compact_ok scs v vac && commit_ok scs v vac && negb (commit_ro scs v vac).
-(* 0: the round removed the vid from writables and did not finish with a clean commit *)
+  let vac := vac_of scs l v in
+  reaches_compact scs l v && compact_ok scs v vac && negb (snd (commit_calls scs v vac)) &&
+  commit_ok scs v vac && negb (commit_ro scs v vac).
+(* 0: the round removed a WRITABLE vid from writables and neither finished with a
+   clean commit nor hangs *)
 Definition trigger_stuck (scs : scripts) (l : layout) (v : N) : bool :=
-  reaches_compact scs l v && negb (full_success scs l v).
-(* 1: clean commit although the criterion does not hold *)
+  reaches_compact scs l v && negb (full_success scs l v) && negb (trigger_hang scs l v) && mem v (l_writ l).
+(* SetVolumeAvailable's own test after a clean commit: the copy count, and some
+   committing replica whose registered info is not read-only *)
+Definition readmit_test (c : cfg) (ns : nodes) (scs : scripts) (l : layout) (v : N) : bool :=
+  enough c (nlen (loc l v)) && existsb (replica_rw ns v) (vac_of scs l v).
+(* 1: a clean commit makes a vid writable that was not *)
 Definition trigger_readmit (c : cfg) (ns : nodes) (scs : scripts) (l : layout) (v : N) : bool :=
-  full_success scs l v && negb (crit_loc c ns l v).
+  full_success scs l v && negb (mem v (l_writ l)) && readmit_test c ns scs l v.
